@@ -597,7 +597,7 @@ def wl_intobs(ctx, rng):
         return
     ctx.check('integer-observation-reaches-the-optimizer', np.asarray(obs.spectrum).dtype.kind == 'i', dtype=str(np.asarray(obs.spectrum).dtype))
     ctx.observe('observation:integer-array')
-    layout2 = dict(layout, K=K, c=c, w=w, width_kind=0)
+    layout2 = dict(layout or {}, K=K, c=c, w=w, width_kind=0)
     y, sigma = np.asarray(obs.spectrum, dtype=float), np.asarray(obs.errorBar, dtype=float)
     observe_setup(ctx, spec, decls, layout2, sampler)
     script, metas = _short_script(rng, decls, obs, n=3)
